@@ -114,6 +114,16 @@ def run(ctx):
         vecs.append([rng.choice([0, 1, 1, 2, 3, 10, 500, rng.randint(0, 10 ** 5)]) for _ in range(K)])
     ctx.exhaustive = True
     entries = [(v, None, 3) for v in vecs] + narrow_vectors(rng, ctx.quick)
+    # repertoires of realistic size: N above 2^21 (where N(N-1)(N-2) leaves int64) up to a few 10^8, a few dominant clones and a tail
+    large = [[1500000, 600000, 100000], [2 ** 21, 1, 1], [2 ** 21 + 2], [3000000, 3000000]]
+    for _ in range(12 if ctx.quick else 200):
+        big = [rng.randint(10 ** 5, rng.choice([10 ** 6, 10 ** 7, 10 ** 8])) for _ in range(rng.randint(1, 4))]
+        tail = [rng.choice([1, 1, 2, 3, 10, 1000]) for _ in range(rng.randint(0, 30))]
+        v = big + tail
+        if sum(v) > 2 ** 21:
+            large.append(v)
+    entries += [(v, 'int64', 3) for v in large]
+    ctx.count('count_vectors_N_above_2^21', len(large))
     reqs = []
     for v, _, _ in entries:
         reqs += [('api_gen_pc_n', [v]), ('api_gen_varpc_n', [v])]
